@@ -106,6 +106,168 @@ Proof. intros HP. unfold MCA. now rewrite (ModelsA_perm C n A A' HP). Qed.
 Lemma in_range_perm n A A' : Permutation A A' -> in_range n A -> in_range n A'.
 Proof. intros HP H l Hl. apply H. eapply Permutation_in; [symmetry; exact HP|exact Hl]. Qed.
 
+(* ---------- the same for lists with the same SET of literals (F19: the cursor key) ---------- *)
+Definition same_set (A A' : cfg) : Prop := forall l, In l A <-> In l A'.
+(* no literal together with its complement (and at most one spelling of 0) *)
+Definition consistent (A : cfg) : Prop :=
+  forall x y, In x A -> In y A -> Z.abs x = Z.abs y -> x = y.
+
+Lemma same_set_refl A : same_set A A.
+Proof. intros l. reflexivity. Qed.
+Lemma same_set_sym A A' : same_set A A' -> same_set A' A.
+Proof. intros H l. symmetry. apply H. Qed.
+Lemma same_set_trans A A' A'' : same_set A A' -> same_set A' A'' -> same_set A A''.
+Proof. intros H1 H2 l. rewrite (H1 l). apply H2. Qed.
+Lemma perm_same_set A A' : Permutation A A' -> same_set A A'.
+Proof. intros HP l. split; apply Permutation_in; [exact HP|now symmetry]. Qed.
+
+Lemma consistent_same_set A A' : same_set A A' -> consistent A -> consistent A'.
+Proof. intros HS HC x y Hx Hy. apply HC; now apply HS. Qed.
+
+Lemma nodup_abs_consistent A : NoDup (map Z.abs A) -> consistent A.
+Proof. intros HN x y Hx Hy Hxy. exact (NoDup_map_inj_in Z.abs A x y HN Hx Hy Hxy). Qed.
+
+Lemma memZ_same_set x l l' : same_set l l' -> memZ x l = memZ x l'.
+Proof. intros HS. apply eq_true_iff_eq. rewrite !memZ_In. apply HS. Qed.
+
+Lemma okA_same_set A A' c : same_set A A' -> okA A c = okA A' c.
+Proof.
+  intros HS. unfold okA. induction c as [|l c IH]; [reflexivity|]. cbn [forallb].
+  now rewrite IH, (memZ_same_set (- l) A A' HS).
+Qed.
+
+Lemma contains_all_same_set A A' m : same_set A A' -> contains_all A m = contains_all A' m.
+Proof.
+  intros HS. unfold contains_all. apply eq_true_iff_eq. rewrite !forallb_forall.
+  split; intros H x Hx; apply H; now apply HS.
+Qed.
+
+Lemma ModelsA_same_set C n A A' : same_set A A' -> ModelsA C n A = ModelsA C n A'.
+Proof. intros HS. unfold ModelsA. apply filter_ext. intros m. now apply contains_all_same_set. Qed.
+
+Lemma MCA_same_set C n A A' : same_set A A' -> MCA C n A = MCA C n A'.
+Proof. intros HS. unfold MCA. now rewrite (ModelsA_same_set C n A A' HS). Qed.
+
+Lemma in_range_same_set n A A' : same_set A A' -> in_range n A -> in_range n A'.
+Proof. intros HS H l Hl. apply H. now apply HS. Qed.
+
+(* Vec::dedup keeps the set, keeps sortedness, and removes nothing from a list without repeats *)
+Lemma dedup_In l : forall x, In x (dedup l) <-> In x l.
+Proof.
+  induction l as [|a l IH]; intros x; [reflexivity|].
+  destruct l as [|b l']; [reflexivity|].
+  change (dedup (a :: b :: l')) with (if a =? b then dedup (b :: l') else a :: dedup (b :: l')).
+  destruct (Z.eqb_spec a b) as [->|Hne].
+  - rewrite IH. cbn [In]. tauto.
+  - cbn [In]. rewrite IH. cbn [In]. tauto.
+Qed.
+
+Lemma dedup_sorted l : AbsSorted l -> AbsSorted (dedup l).
+Proof.
+  induction l as [|a l IH]; intros Hs; [constructor|].
+  apply StronglySorted_inv in Hs. destruct Hs as [Hs Ha].
+  destruct l as [|b l']; [repeat constructor|].
+  change (dedup (a :: b :: l')) with (if a =? b then dedup (b :: l') else a :: dedup (b :: l')).
+  destruct (a =? b); [now apply IH|].
+  constructor; [now apply IH|]. rewrite Forall_forall in *. intros z Hz. apply Ha.
+  now apply dedup_In.
+Qed.
+
+Lemma dedup_nodup_abs l : AbsSorted l -> consistent l -> NoDup (map Z.abs (dedup l)).
+Proof.
+  induction l as [|a l IH]; intros Hs HC; [constructor|].
+  apply StronglySorted_inv in Hs. destruct Hs as [Hs Ha].
+  assert (HC' : consistent l).
+  { intros x y Hx Hy. apply HC; now right. }
+  destruct l as [|b l']; [cbn; repeat constructor; intros []|].
+  change (dedup (a :: b :: l')) with (if a =? b then dedup (b :: l') else a :: dedup (b :: l')).
+  destruct (Z.eqb_spec a b) as [->|Hne]; [now apply IH|].
+  cbn [map]. constructor; [|now apply IH].
+  intros Hin. apply in_map_iff in Hin. destruct Hin as (z & Hz & Hzin).
+  apply (proj1 (dedup_In _ _)) in Hzin.
+  assert (Haz : a = z) by (apply HC; [now left|right; exact Hzin|now symmetry]).
+  subst z. apply Hne.
+  apply HC; [now left|right; now left|].
+  apply StronglySorted_inv in Hs. destruct Hs as [_ Hb]. rewrite Forall_forall in Ha, Hb.
+  assert (H1 : abs_le a b) by (apply Ha; now left).
+  destruct Hzin as [->|Hin']; [reflexivity|].
+  specialize (Hb a Hin'). unfold abs_le in *. lia.
+Qed.
+
+Lemma dedup_id l : NoDup l -> dedup l = l.
+Proof.
+  induction l as [|a l IH]; intros HN; [reflexivity|].
+  apply NoDup_cons_iff in HN. destruct HN as [Ha HN].
+  destruct l as [|b l']; [reflexivity|].
+  change (dedup (a :: b :: l')) with (if a =? b then dedup (b :: l') else a :: dedup (b :: l')).
+  destruct (Z.eqb_spec a b) as [->|Hne]; [exfalso; apply Ha; now left|].
+  now rewrite IH.
+Qed.
+
+Lemma enum_key_In A : same_set (enum_key A) A.
+Proof.
+  intros l. unfold enum_key. rewrite dedup_In.
+  split; apply Permutation_in; [apply sort_abs_perm|symmetry; apply sort_abs_perm].
+Qed.
+
+Lemma enum_key_sorted A : AbsSorted (enum_key A).
+Proof. apply dedup_sorted, sort_abs_sorted. Qed.
+
+Lemma enum_key_nodup_abs A : consistent A -> NoDup (map Z.abs (enum_key A)).
+Proof.
+  intros HC. apply dedup_nodup_abs; [apply sort_abs_sorted|].
+  apply (consistent_same_set A); [|exact HC]. apply perm_same_set. symmetry. apply sort_abs_perm.
+Qed.
+
+(* without repeated features nothing is removed: the key is the sorted list, as before F19 *)
+Lemma enum_key_nodup A : NoDup (map Z.abs A) -> enum_key A = sort_abs A.
+Proof.
+  intros HN. unfold enum_key. apply dedup_id. eapply NoDup_map_inv with (f := Z.abs).
+  eapply Permutation_NoDup; [|exact HN]. apply Permutation_map. symmetry. apply sort_abs_perm.
+Qed.
+
+(* THE KEY IS THE SET: two consistent lists with the same literals -- in any order, any literal any
+   number of times -- have the same cursor key *)
+Theorem enum_key_same_set A A' : consistent A -> same_set A A' -> enum_key A = enum_key A'.
+Proof.
+  intros HC HS.
+  assert (HC' : consistent A') by (now apply (consistent_same_set A)).
+  apply abs_sorted_unique; try apply enum_key_sorted; [|now apply enum_key_nodup_abs].
+  apply NoDup_Permutation.
+  - eapply NoDup_map_inv. now apply enum_key_nodup_abs.
+  - eapply NoDup_map_inv. now apply enum_key_nodup_abs.
+  - intros x. rewrite (enum_key_In A x), (enum_key_In A' x). apply HS.
+Qed.
+
+(* the key is a fixed point: it is its own key *)
+Lemma enum_key_idem A : consistent A -> enum_key (enum_key A) = enum_key A.
+Proof.
+  intros HC. symmetry. apply enum_key_same_set; [exact HC|]. apply same_set_sym, enum_key_In.
+Qed.
+
+(* a list that some complete configuration contains is consistent *)
+Lemma all_cfgs_abs n m : In m (all_cfgs n) -> map Z.abs m = zseq 1 n.
+Proof.
+  unfold all_cfgs. intros H. apply in_all_cfgs_over in H.
+  assert (Hpos : forall v, In v (zseq 1 n) -> 0 < v) by (intros v Hv; apply zseq_In in Hv; lia).
+  induction H as [|v l vs r Hl HF IH]; [reflexivity|]. cbn [map]. f_equal.
+  - assert (0 < v) by (apply Hpos; now left). destruct Hl as [->| ->]; lia.
+  - apply IH. intros w Hw. apply Hpos. now right.
+Qed.
+
+Lemma sat_consistent C n A : 0 < MCA C n A -> consistent A.
+Proof.
+  intros Hc. unfold MCA, ModelsA in Hc.
+  destruct (filter (contains_all A) (Models C n)) as [|m ms] eqn:Ef; [cbn in Hc; lia|].
+  assert (Hm : In m (filter (contains_all A) (Models C n))) by (rewrite Ef; now left).
+  apply filter_In in Hm. destruct Hm as [Hm Hca].
+  unfold Models in Hm. apply filter_In in Hm. destruct Hm as [Hm _].
+  unfold contains_all in Hca. rewrite forallb_forall in Hca.
+  assert (HN : NoDup (map Z.abs m)) by (rewrite (all_cfgs_abs n m Hm); apply zseq_NoDup).
+  intros x y Hx Hy Hxy.
+  apply (NoDup_map_inj_in Z.abs m x y HN); [apply memZ_In, Hca, Hx|apply memZ_In, Hca, Hy|exact Hxy].
+Qed.
+
 (* ---------- a sorted complete configuration is the canonical one ---------- *)
 Lemma zseq_abs_sorted (f : Z -> Z) start len :
   0 < start -> (forall v, Z.abs (f v) = Z.abs v) ->
